@@ -361,3 +361,28 @@ func TestVerif_C04C06C15_TextScanner(t *testing.T) {
 	}
 	res.emit(t)
 }
+
+// TestVerif_C03_BackrefLiteral: what a back-reference means (C03): it matches literally the text of the group that
+// the entering rule captured, whatever bytes that text holds.
+func TestVerif_C03_BackrefLiteral(t *testing.T) {
+	res := &verifResult{Check: "BackrefRegex meaning", Property: "C03", Exhaustive: true,
+		Bound: "the pattern \\1 against 11 group texts (plain, empty, metacharacters, NUL, non-ASCII, bytes that are not valid UTF-8)",
+		Rule: "group texts; non-trivial = the text is not plain ASCII letters"}
+	atoms := []string{"a", "b", "a\x00b", "a\x00", "", ".", "("}
+	// what a back-reference means: it matches literally the text of the group, whatever bytes that text holds
+	for _, g := range append(append([]string{}, atoms...), "\xff", "a\xffb", "é", "\xc3") {
+		res.Evaluations++
+		if g != "a" && g != "b" {
+			res.Distinct++
+		}
+		re, err := BackrefRegex(&sync.Map{}, `\1`, []string{"whole", g})
+		if err != nil {
+			res.violate("BackrefRegex(`\\1`, group %q) fails: %v; a back-reference matches the text of the group literally", g, err)
+			continue
+		}
+		if m := re.FindString(g + "zz"); m != g {
+			res.violate("BackrefRegex(`\\1`, group %q) matches %q of %q; a back-reference matches the text of the group literally", g, m, g+"zz")
+		}
+	}
+	res.emit(t)
+}
